@@ -129,7 +129,7 @@ func Registry() []*Spec {
 	prettySpec := Spec{Name: "VerifPretty", Pkg: "asm",
 		Quick: map[string]int{"PKINDS": 2, "NW": 3}, Thorough: map[string]int{"PKINDS": 2, "NEG": 1, "NW": 4},
 		UnitDepth: 5,
-		Note: "pretty.Writer.Marshal (JSON and SEN mode) on 12 tree shapes built for the alignment and line-breaking code (arrays of maps with different key sets, rows with a key that holds a symbolic printable byte, arrays of arrays, nesting to depth 3, empty containers, and two leaves nested 126..129 arrays deep, where the indentation reaches the end of the constant run of spaces) with symbolic leaves (int in [0,99] or nil; thorough: int in [-99,99] or nil), Width from {6,14,40} (thorough: also 1), MaxDepth 1..3, Align on/off: the text decodes (reference JSON decoder / the real sen.Parser) to the input tree"}
+		Note: "pretty.Writer.Marshal (JSON and SEN mode) on 12 tree shapes built for the alignment and line-breaking code (arrays of maps with different key sets, rows with a key that needs quotes in SEN, arrays of arrays, nesting to depth 3, empty containers, and two leaves nested 126..129 arrays deep, where the indentation reaches the end of the constant run of spaces) with symbolic leaves (int in [0,99] or nil; thorough: int in [-99,99] or nil), Width from {6,14,40} (thorough: also 1), MaxDepth 1..3, Align on/off: the text decodes (reference JSON decoder / the real sen.Parser) to the input tree"}
 	{
 		s := prettySpec
 		s.Property, s.Asserts, s.Covers = "C04", []string{"no-panic", "json-"}, []string{"json"}
